@@ -7,7 +7,8 @@
 # (go build is incremental: ~1-2 s when nothing changed).
 set -u
 export GOFLAGS=-mod=mod GOPROXY=off GOSUMDB=off GOTOOLCHAIN=local CGO_ENABLED=0
-VERIF=/verif
+VERIF=$(cd "$(dirname "$0")" && pwd)
+export VERIF_DIR=$VERIF
 BIN=$VERIF/.bin
 mkdir -p "$BIN"
 cd "$VERIF/harness" || exit 2
@@ -22,7 +23,7 @@ build() { # flavour
     inst|instvec)
       local tags="verif inst"; [ "$f" = instvec ] && tags="verif vectors inst"
       local ov; ov=$(mktemp -d /dev/shm/verif-ov-XXXXXX) || return 2
-      if ! go run ./instrument -repo /repo -out "$ov" -tags "$tags" >"$log" 2>&1; then rm -rf "$ov"; return 1; fi
+      if ! go run ./instrument -repo "${VERIF_REPO:-/repo}" -out "$ov" -tags "$tags" >"$log" 2>&1; then rm -rf "$ov"; return 1; fi
       go build -overlay "$ov/overlay.json" -tags "$tags" -o "$out" ./cmd/vcheck >>"$log" 2>&1
       local rc=$?; rm -rf "$ov"; return $rc ;;
     *) echo "unknown flavour $f" >&2; return 2 ;;
